@@ -184,3 +184,15 @@ def allocates_only(old, new, *classes):
     o = q()
     return ForAll([o], Implies(And(Not(old.alive(o)), new.alive(o)), Or([isa[k](o) for k in classes])),
                   patterns=[new.alive(o)])
+
+
+def roles_frame(old, new):
+    """container roles/owners of the objects that existed are unchanged"""
+    o = q()
+    return ForAll([o], Implies(old.alive(o), And(new.f('$setrole', o) == old.f('$setrole', o),
+                                                 new.f('$setowner', o) == old.f('$setowner', o))),
+                  patterns=[new.f('$setrole', o)])
+
+
+def roles_frame_except_backlinks(old, new, S):
+    return roles_frame(old, new)
